@@ -21,7 +21,7 @@ RULE = ("three explorers. (1) active set: n=1..N; all 3^n vectors over a three-l
         "class, parameter, option, scaling). (3) histories: every sequence of `depth` response() calls over 3 input "
         "tables x damping x class x sign x active-set option, fresh objects per sequence, oracle after every call; "
         "non-trivial if >=2 calls visit >=2 different tables; distinct by (configuration, sequence).")
-RULE += " Extended in seeding rounds 6-7:  numeric admissibility by the largest term over the selected entries (soft minimum of widely spread data), vectors of 257..2000 entries."
+RULE += " Extended in seeding rounds 6-7:  numeric admissibility by the largest term over the selected entries (soft minimum of widely spread data), vectors of 257..600 entries."
 ASSUMPTIONS = [
     "first response(): AggScaling has no previous factor and starts with s_0 = true_0/approx_0 for every damping (read "
     "from AggScaling.__call__: `if self.sf is None: self.sf = scale`); the statement does not fix the initial value, "
@@ -169,7 +169,7 @@ def generate(tier, seed):
         yield from aset_cases(n, ['aff', seed, 0.0, 1e-9], lo, hi)
     # long unsorted vectors (library sorting / partitioning routines switch algorithm with the length)
     yield {'__level__': 'active_set/long_vectors'}
-    for n in (257, 600) if tier == 'quick' else (257, 300, 600, 1000, 2000):
+    for n in (257, 600) if tier == 'quick' else (257, 300, 600):
         yield from aset_cases(n, ['gen', seed], lo, hi)
     yield {'__level__': 'aggregation_bounds'}
     nmax, ntie = (6, 3) if tier == 'quick' else (8, 4)
